@@ -73,13 +73,7 @@ func (f *Signum) Call(s *slip.Scope, args slip.List, depth int) slip.Object {
 	case *slip.Bignum:
 		sig = (*big.Int)(ta).Sign()
 	case *slip.Ratio:
-		v := ta.RealValue()
-		switch {
-		case 0.0 < v:
-			sig = 1
-		case v < 0.0:
-			sig = -1
-		}
+		sig = (*big.Rat)(ta).Sign()
 	case slip.Complex:
 		r := real(ta)
 		i := imag(ta)
